@@ -243,6 +243,49 @@ where
     })
 }
 
+fn metric_oracle<V>(op: &str) -> Option<OpFn>
+where
+    V: Rd + Fl + Copy + InnerSpace<Scalar = X> + MetricSpace<Metric = X> + 'static,
+{
+    Some(match op {
+        // u, v (u chosen with rational length so that sqrt is exact), m
+        "metric" => |a| {
+            let (u, v, m) = (V::rd(a), V::rd(a), a.x());
+            let mut r = vec![];
+            let m2 = u.magnitude2();
+            if m2.val().exact_sqrt().is_none() || is0(&[m2]) { return Out::Skip; }
+            let mag = u.magnitude();
+            r.push(mag * mag - m2);
+            r.push(if m2.val().neg || mag.val().neg { X::int(1) } else { X::int(0) });
+            let n = u.normalize();
+            r.push(n.magnitude2() - X::int(1));
+            let nt = u.normalize_to(m);
+            r.push(nt.magnitude2() - m * m);
+            // positive multiple of u for m > 0: nt = u * (m / |u|)
+            r.extend(diff(nt, u * (m / mag)));
+            r.extend(diff(n, u * (X::int(1) / mag)));
+            // distance
+            r.push(u.distance2(v) - v.distance2(u));
+            r.push(u.distance2(v) - (u - v).magnitude2());
+            let d2 = u.distance2(v);
+            if d2.val().exact_sqrt().is_some() {
+                let d = u.distance(v);
+                r.push(d * d - d2);
+                r.push(d - v.distance(u));
+                r.push(d - (u - v).magnitude());
+            }
+            // projection (v must be non-zero)
+            if !is0(&[v.magnitude2()]) {
+                let p = u.project_on(v);
+                r.push((u - p).dot(v));
+                r.extend(diff(p, v * (u.dot(v) / v.magnitude2())));
+            }
+            ok(r)
+        },
+        _ => return None,
+    })
+}
+
 pub fn lookup(name: &str) -> Option<OpFn> {
     if let Some((ty, op)) = name.strip_prefix("o.").and_then(|r| r.split_once('.')) {
         let f = match ty {
@@ -252,6 +295,11 @@ pub fn lookup(name: &str) -> Option<OpFn> {
             "p1" => point_generic::<Point1<X>>(op),
             "p2" => point_generic::<Point2<X>>(op),
             "p3" => point_generic::<Point3<X>>(op),
+            "v1" => metric_oracle::<Vector1<X>>(op),
+            "v2" => metric_oracle::<Vector2<X>>(op),
+            "v3" => metric_oracle::<Vector3<X>>(op),
+            "v4" => metric_oracle::<Vector4<X>>(op),
+            "q" => metric_oracle::<Quaternion<X>>(op),
             "dq" => dec_oracle::<Point3<X>, Quaternion<X>>(op),
             "db3" => dec_oracle::<Point3<X>, Basis3<X>>(op),
             "db2" => dec_oracle::<Point2<X>, Basis2<X>>(op),
@@ -616,7 +664,7 @@ pub fn names() -> Vec<String> {
     let mut v: Vec<String> = ["o.v3.lagrange", "o.v3.cross_cross", "o.v3.cross_orth", "o.v.dot_bilinear",
         "o.m4.constructors", "o.m3.constructors", "o.m.embed", "o.p3.homogeneous",
         "o.q.algebra", "o.q.invert", "o.q.rotate", "o.q.compose", "o.q.same_rotation", "o.q.roundtrip",
-        "o.rad.modular", "o.deg.modular", "o.angle.convert", "o.proj.ortho", "o.proj.frustum", "o.proj.perspective", "o.proj.planar", "o.dq.matrix", "o.db2.matrix", "o.m4.transform", "o.m3.transform",
+        "o.v1.metric", "o.v2.metric", "o.v3.metric", "o.v4.metric", "o.q.metric", "o.rad.modular", "o.deg.modular", "o.angle.convert", "o.proj.ortho", "o.proj.frustum", "o.proj.perspective", "o.proj.planar", "o.dq.matrix", "o.db2.matrix", "o.m4.transform", "o.m3.transform",
         "o.dq.laws", "o.dq.inverse", "o.db3.laws", "o.db3.inverse", "o.db2.laws", "o.db2.inverse"]
         .iter()
         .map(|s| s.to_string())
